@@ -90,7 +90,8 @@ class TagValidator:
             list: Validation issues. Each issue is a dictionary.
         """
         validation_issues = []
-        tag_names = original_tag.org_base_tag.split("/")
+        # the library namespace ("sc:") is not part of the tag name
+        tag_names = original_tag.org_base_tag[len(original_tag.schema_namespace):].split("/")
         for tag_name in tag_names:
             correct_tag_name = tag_name.capitalize()
             if tag_name != correct_tag_name and not re.search(self.CAMEL_CASE_EXPRESSION, tag_name):
